@@ -5,6 +5,11 @@ V = os.path.dirname(os.path.dirname(os.path.abspath(__file__)))
 props = [json.loads(l) for l in open(os.path.join(V, 'properties.jsonl'))]
 
 CLAIMED = {
+ 'C02': dict(
+   text="Lean model of every wire type (WType incl. arbitrarily nested arrays; custom types plugged in through a law-carrying codec) with theorems by structural induction: in-domain encoding never fails, decode(encode v ++ rest) = (v, rest) for every self-delimiting type, encodings non-empty, EVERY strict prefix of an encoding is rejected, big-endian two's-complement spec stated independently (beValue bs = v mod 256^w), UTF-8 round trip, per-kind prescriptions; Angle/FixedPoint over exact integer arithmetic: step always in 0..255 (the repaired defect), decoded angle within half a quantum circularly, fixed point within one quantum with truncation toward zero, exact on multiples. Correspondence: real send/read of every type in types.basic incl. instance-based ones, exhaustive for 8/16-bit and angle steps, every strict prefix of sampled encodings, malformed inputs.",
+   note="struct's float<->pattern conversion, str.encode/decode and uuid are CPython's (compared, not proved); float rounding inside Angle/FixedPoint is not modelled (inputs exactly representable, kept 1e-9 away from rounding boundaries); signalling-NaN float patterns excluded (CPython quiets them); NBT is pynbt's.",
+   technique="Lean 4 proof (structural induction over wire types) + correspondence",
+   design="5/C02"),
  'C03': dict(
    text="Lean 4 theorems over a model of VarInt.read/send/size, for all byte strings, all naturals/integers and all max_bytes: round trip, bounded reads (<= max_bytes+1), only-EOF/too-long failures, no read past the terminator, canonical and unique encoding, size table = encoded length, totality of send on every int. Tied to the code by a correspondence run (model driver vs real VarInt/VarLong on ~4*10^5 inputs incl. every <=2-byte string and every continuation shape <=13 bytes).",
    note="Model hand-written; the tie is differential testing (volumes in evidence). struct.pack('B') and Python int arithmetic trusted. Hangs are observed under a timer budget.",
@@ -20,11 +25,21 @@ CLAIMED = {
    note="Hand model tied by byte-level correspondence on versions x boundary product x words; version->layout by total tabulation (probe of the real codec). struct.pack('>Q') trusted.",
    technique="Lean 4 proof (bit-packing lemmas + omega) + kernel decide over the tabulated version table + correspondence",
    design="5/C04"),
+ 'C05': dict(
+   text="Lean theorems: layout_rt for EVERY field-list layout (unbounded, nested arrays, real custom codecs proved to satisfy the codec law) — write succeeds on well-typed values, read returns them and consumes the payload exactly, strict prefixes rejected; object-level packet_rt; over tables regenerated from the live get_definition/get_packets/get_id on all known versions (kernel decide): every supported version x registered class has an id and a layout or hand codec, every generated layout is well-formed and round-trips, hand-written set is exactly the expected one; hand-written codecs (Map, PlayerListItem, SpawnObject, CombatEvent, FacePlayer, PluginResponse) modelled with version flags and proved to round-trip for ALL flag combinations up to an explicit normalise function. Correspondence: real write_fields/read/repr/id for supported versions x classes x values vs the model, hand codecs vs their models, random user-defined field lists.",
+   note="repr is exercised on the implementation only; NBT fields (JoinGame/Respawn >= 718) are pynbt's: real round trip exercised, not modelled; Map offsets are taken in 0..127 (reader Byte vs writer UnsignedByte asymmetry documented, not alarmed).",
+   technique="Lean 4 proof (generic layout round trip + per-class flag-parametric round trips) + kernel decision over tabulated layouts + correspondence",
+   design="5/C05"),
  'C06': dict(
    text="The whole finite domain (8 state/direction tables x 369 known versions) of get_packets/get_id is tabulated from the live code on every run; totality and injectivity-except-listed on all supported versions are decided by the Lean kernel (decide +kernel), each listed collision is proved real, and a generic theorem shows a dict built in ANY iteration order over an injective row maps an id to exactly its class.",
    note="Translator harness/extract.py trusted to print what the live functions return (purity smoke-checked by evaluating twice in opposite orders); ids also exercised through the real reactors' dicts. 9 known collisions on supported snapshot versions are listed in known_findings.json.",
    technique="total tabulation by translator + Lean 4 kernel decision (decide +kernel) + generic Lean proof",
    design="5/C06"),
+ 'C07': dict(
+   text="A reference table of ids and field-type sequences for 20 core packets x 30 release protocols, written from the published protocol (harness/refproto.py, no pyCraft code) and rendered to Lean; the kernel decides that pyCraft's tabulated ids and layouts (regenerated from the live code) equal the reference for every release x packet (single-byte signedness identified), and a theorem shows equal normalised layouts give identical bytes and reads. Correspondence: the real Packet.write is byte-identical to an encoder built only from the reference + refcodec, and the real reader decodes the reference bytes to the same fields.",
+   note="The reference table is written from memory of the published protocol documentation (no network here); it agreed with pyCraft on all 600 (release, packet) pairs when written. A future disagreement is examined model-first.",
+   technique="independent reference + Lean 4 kernel decision over tabulated tables + byte-level correspondence",
+   design="5/C07"),
  'C08': dict(
    text="Lean model of initglobals (ordered-dict update-or-append, first-occurrence index, release recogniser) and of the five ConnectionContext predicates; theorems for ALL record lists: derived tables are exactly the order-preserving duplicate-free projections, index = position of first occurrence (injective), 'earlier' is a strict total order coinciding with list position, the five predicates are mutually consistent (as equalities of results incl. the unknown-version error), init is idempotent and independent of previous state, all of it after run-time extension with old indices unchanged. On the ACTUAL data: model(live records) = live tables, ordinary numbers strictly increasing, supported list chronological — decided in the kernel over a file regenerated from the running module on every run. Correspondence: the real initglobals on random record lists/extension histories and the real predicates on all pairs.",
    note="The regex \\d+(\\.\\d+)+$ is mirrored by an explicit recogniser restricted to ASCII digits (Python's \\d also matches other Unicode decimal digits: documented restriction), tied to re.match by correspondence only.",
@@ -45,6 +60,11 @@ CLAIMED = {
    note="When the peer has already closed while more than one read batch is still unread, the client's own writes fail (EPIPE) before it reads the disconnect packet; that realistic limitation is outside the property's clause and the harness keeps closed-peer histories within the first batch. With the peer closed only 'the wire is a prefix' holds (also in the model).",
    technique="Lean 4 proof (loop with measure, cap-independence) + correspondence on sequential simnet",
    design="5/C11"),
+ 'C12': dict(
+   text="Lean transition system of the write path (user threads: queued/forced writes, graceful/immediate disconnect; networking thread's write loop with caps as parameters) at the granularity of lock, queue, socket-send, interrupt and select operations; invariant proved for EVERY program set and EVERY schedule: only the lock holder is inside a frame, the wire is whole duplicate-free frames plus at most the holder's open length prefix, issued = sent + in-flight + queued + failed (disjoint), per-thread FIFO of queued packets, a graceful disconnect flushes everything queued at its lock acquisition then closes, nothing is sent after the close. Trace refinement: the real code runs on real threads under a baton scheduler yielding at exactly those operations; the executed schedule replayed through the model must give the identical event log, wire and final state (500 random walks quick; systematic enumeration with preemption bound + 6000 walks thorough), plain/compressed/encrypted transports; oracle parses the server-side byte stream independently.",
+   note="Atomicity of deque/attribute operations is the GIL's; preemption between yield points assumed unobservable (all shared state is reached through them); the cipher-swap window in LoginReactor is not claimed; the liveness half of the final-state theorem is _partial.",
+   technique="Lean 4 proof (inductive invariant over all schedules) + trace refinement on a deterministic scheduler",
+   design="5/C12"),
  'C13': dict(
    text="Lean model of the four listener lists, call_packet (first matching type, callback once), _react and _write_packet; theorems for ALL hierarchies (cyclic or not), configurations and histories: call log = early matches ++ reaction ++ ordinary matches in registration order cut after the first ignore; exactly-once; ignore is local to the packet; early ignore suppresses reaction; outgoing early before the write and able to suppress it, ordinary after; the four-way registration target. Correspondence on the sequential simnet: random listener configurations over the real packet class hierarchy, login and play histories, client-written packets.",
    note="The built-in reaction is observed by wrapping (not replacing) the reactors' react methods; a non-IgnorePacket exception in a listener belongs to C14.",
@@ -60,6 +80,11 @@ CLAIMED = {
    note="A peer that stalls without closing (blocking read) is OS behaviour outside the model. The planned bound of 1 read after EOF is false for the literal code (length prefix then EOF gives 2); proved as <= 2 with a _partial refinement.",
    technique="Lean 4 proof (prefix theorem over the frame model, instrumented read counter) + fault enumeration at every byte offset as correspondence",
    design="5/C15"),
+ 'C16': dict(
+   text="Lean transition system of the connection lifecycle (connect/status/disconnect atomic under the lock, networking threads with prologue hand-over, unlocked read phase, exception path with the now-atomic cleanup block, epilogue; server behaviours accept/refuse/disconnect/fail; listener/handler reconnect budgets); for ALL programs, environments and schedules: at most one networking thread is in an I/O phase and I/O events of different threads are separated by the first one finishing; connect/status on an active connection returns InvalidState and changes nothing; after any end the object is reusable (also from listeners/handlers); disconnect is total, idempotent and leaves the active thread interrupted; an interrupted thread dies within a bounded number of its own steps and can always be driven to death (fairness part _partial). Correspondence: sequential call histories on real threads under the scheduler vs `life.run`; two user threads under random schedules judged by the oracle.",
+   note="Concurrent tie is oracle-only (no event-log equality for C16). select() on a closed file raising ValueError in an idle thread after a user disconnect is real behaviour outside the property (thread still terminates). Known finding: an interrupted thread's pending reaction to the old connection's server-disconnect can close a connection started meanwhile.",
+   technique="Lean 4 proof (inductive invariant over all schedules) + correspondence on scheduled real threads",
+   design="5/C16"),
  'C17': dict(
    text="Lean theorems for EVERY digest byte string: the printed string parses back (independent signed base-16 parser) to the two's-complement value, '-' iff top bit, no leading zeros, lower-case hex only, and it is the unique canonical numeral (= BigInteger.toString(16)); input order id||secret||key; a complete Lean SHA-1 anchored by kernel-checked FIPS vectors and the three published Minecraft vectors. Correspondence: real generate_verification_hash vs the Lean SHA-1+formatter.",
    note="hashlib.sha1, str.encode, int.from_bytes/format are compared against the Lean implementation, not proved.",
@@ -102,7 +127,7 @@ def main():
         })
     m = {
      'version': 1,
-     'setup_cmd': 'cd lean && lake build PyCraft.All driver',
+     'setup_cmd': '/venv/bin/python harness/regen.py && cd lean && lake build PyCraft.All driver',
      'hooks': {'guard': 'PYCRAFT_VERIF',
                'enable': 'no source hooks exist: the harness rebinds module-level names of minecraft.networking.connection inside its own process (DESIGN.md 1.1)',
                'baseline_off_cmd': 'cd /repo && /venv/bin/python -m pytest -q -p no:cacheprovider --timeout=900',
